@@ -28,7 +28,10 @@ type StartCursor struct {
 type Case struct {
 	Kind  string        `json:"kind"` // "seq": consecutive picks; "conc": G goroutines x M picks
 	Setup []lib.Op      `json:"setup"`
-	Picks []int         `json:"picks"` // seq: the policy of each pick, or -1-v: a Sync that leaves the servers as they are (variant v, see resyncOp); conc: goroutine i uses Picks[i % len]
+	// seq: the policy of each pick (an index past the last policy: ClusterInfo.PickOne(), what token authentication does per
+	// request); -1-v (v < resyncVariants): a Sync that leaves the servers as they are (variant v, see resyncOp); -1000-i: a health
+	// probe of server i of the first Sync that answers what it answered before (TriggerHealthCheck); conc: goroutine i uses Picks[i % len]
+	Picks []int `json:"picks"`
 	Resync bool         `json:"resync"` // conc: one more goroutine keeps issuing such Syncs while the pickers run
 	Reuse bool          `json:"reuse"` // one picker per policy (seq) / per goroutine (conc) instead of MatchAttributes per pick
 	Start []StartCursor `json:"start"` // cursor values installed before the picks (for every order of the policy's ready set)
@@ -37,6 +40,8 @@ type Case struct {
 	// kind "churn": server lists synced one after the other while G pickers run; then quiescence and a fresh window of M picks
 	// per policy judged against the final configuration (churn.go)
 	Churn [][]lib.Server `json:"churn"`
+	// kind "e2e": requests through the real handler chain, counted at the upstream servers (e2e.go)
+	E2E *E2E `json:"e2e,omitempty"`
 }
 
 type group struct {
@@ -59,6 +64,7 @@ type group struct {
 type reply struct {
 	Results []*lib.OutJ `json:"results"`
 	Lb      []lib.LbEnt `json:"lb"`
+	LbPick  []lib.LbEnt `json:"lb_pickone"` // PickOne's own cursors, when the code gives it some
 	Groups  []group     `json:"groups"`
 }
 
@@ -108,6 +114,35 @@ func resyncOp(first lib.Op, v int) lib.Op {
 
 const resyncVariants = lib.ExtraKinds * 3
 
+// movedKey finds the cursor a pick advanced: the ordered ready list (endpoint names, hex) and whether the key carries a scope
+// prefix (PickOne's own cursors). nil when no cursor moved.
+func movedKey(w *lib.World, before, after map[string]uint64) ([]string, bool) {
+	for k, v := range after {
+		if before[k] == v {
+			continue
+		}
+		list, own := k, false
+		if i := strings.Index(k, "["); i > 0 {
+			list, own = k[i:], true
+		}
+		_, lb, _ := w.Snapshot()
+		for _, ent := range lb {
+			if (ent.Scope != "") != own || ent.C != v {
+				continue
+			}
+			var addrs []string
+			for _, id := range ent.Key {
+				addrs = append(addrs, id.N)
+			}
+			// the entry whose rendering is this key
+			if w.KeyString(ent) == list {
+				return addrs, own
+			}
+		}
+	}
+	return nil, false
+}
+
 func readable(cs Case) string {
 	var b strings.Builder
 	for _, op := range cs.Setup {
@@ -145,15 +180,21 @@ func readable(cs Case) string {
 	if cs.Kind == "conc" {
 		fmt.Fprintf(&b, "%d goroutines x %d picks, policies %v, reuse=%v, start=%v, concurrent unchanged-server Syncs=%v", cs.G, cs.M, cs.Picks, cs.Reuse, cs.Start, cs.Resync)
 	} else {
-		np, ns := 0, 0
+		np, ns, npr, npo := 0, 0, 0, 0
 		for _, p := range cs.Picks {
-			if p < 0 {
+			switch {
+			case p <= -1000:
+				npr++
+			case p < 0:
 				ns++
-			} else {
+			case p >= 3:
+				npo++
+				np++
+			default:
 				np++
 			}
 		}
-		fmt.Fprintf(&b, "%d consecutive picks with %d unchanged-server Syncs in between (negative entries), policies %v, reuse=%v, start=%v", np, ns, compress(cs.Picks), cs.Reuse, cs.Start)
+		fmt.Fprintf(&b, "%d consecutive picks (%d of them PickOne() = entry 3) with %d unchanged-server Syncs (entries -1..-21) and %d no-change health probes (entries <= -1000) in between, entries %v, reuse=%v, start=%v", np, npo, ns, npr, compress(cs.Picks), cs.Reuse, cs.Start)
 	}
 	return b.String()
 }
@@ -168,6 +209,9 @@ func compress(l []int) string {
 func runCase(c *rig.Ctx, cs Case, record bool, inf *info) bool {
 	if cs.Kind == "churn" {
 		return runChurn(c, cs, record, inf)
+	}
+	if cs.Kind == "e2e" {
+		return runE2E(c, cs, record, inf)
 	}
 	fail := func(kind, class, what string, impl, model interface{}) bool {
 		inf.kind, inf.class = kind, class
@@ -221,6 +265,7 @@ func runCase(c *rig.Ctx, cs Case, record bool, inf *info) bool {
 	var uss [][]string
 	events := []interface{}{} // the window as the model sees it: picks and Syncs in order
 	syncErr := ""
+	probeMoved := ""
 	var outs []*lib.OutJ
 	pick := func(p clusters.EndpointPicker) ([]string, *lib.OutJ) {
 		return rig.HexList(clusters.VerifPickerUpstreams(p)), w.PopPicker(p)
@@ -313,6 +358,60 @@ func runCase(c *rig.Ctx, cs Case, record bool, inf *info) bool {
 		msg, panicked := rig.Recover(func() {
 			pickers := map[int]clusters.EndpointPicker{}
 			for _, pol := range cs.Picks {
+				if pol <= -1000 {
+					// a probe that changes nothing: same answer as before (reason / message of the status differ from probe to
+					// probe); no cursor may move, no cursor may be dropped
+					sv := cs.Setup[0].Servers
+					if len(sv) == 0 {
+						continue
+					}
+					name := sv[(-1000-pol)%len(sv)].Ep
+					e, ok := w.Load(name)
+					if !ok {
+						continue
+					}
+					before := w.RawCursors()
+					n0 := w.ProbesOf(e)
+					probing := clusters.VerifEndpointStatus(e).Probing
+					e.TriggerHealthCheck()
+					if probing {
+						deadline := time.Now().Add(w.Timeout)
+						for w.ProbesOf(e) <= n0 && time.Now().Before(deadline) {
+							time.Sleep(20 * time.Microsecond)
+						}
+						if w.ProbesOf(e) <= n0 {
+							syncErr = "a triggered health probe of " + rig.UnHex(name) + " did not happen"
+							return
+						}
+					}
+					w.DrainFired()
+					after := w.RawCursors()
+					if fmt.Sprint(before) != fmt.Sprint(after) && probeMoved == "" {
+						probeMoved = fmt.Sprintf("a health probe of %s that answered what it answered before changed the round-robin cursors: before %v, after %v", rig.UnHex(name), before, after)
+					}
+					events = append(events, map[string]interface{}{"probe": lib.Op{Op: "trigger", N: name, Up: cs.Setup[0].Up}})
+					continue
+				}
+				if pol >= len(cs.Setup[0].Policies) {
+					// ClusterInfo.PickOne(): the order it iterated in and the cursor scope it used are read off the cursor that moved
+					before := w.RawCursors()
+					e, err := w.CI.PickOne()
+					after := w.RawCursors()
+					var out *lib.OutJ
+					if err != nil {
+						out = w.PopError(err)
+					} else {
+						out = &lib.OutJ{Ok: w.Ident(e)}
+					}
+					order, own := movedKey(w, before, after)
+					if order == nil { // fewer than two ready endpoints: no cursor involved, any order gives the same answer
+						order = rig.HexList(w.CI.AllEndpoints())
+					}
+					uss = append(uss, order)
+					events = append(events, map[string]interface{}{"pickone": map[string]interface{}{"order": order, "own": own}})
+					outs = append(outs, out)
+					continue
+				}
 				if pol < 0 {
 					op := resyncOp(cs.Setup[0], -1-pol)
 					w.SetUp(op.Up)
@@ -348,7 +447,10 @@ func runCase(c *rig.Ctx, cs Case, record bool, inf *info) bool {
 		return fail("judge", "c14.panic", "Pop panicked: "+panicMsg, nil, nil)
 	}
 	if syncErr != "" {
-		return fail("diff", "c14.sync-error", "a Sync inside the window failed: "+syncErr, nil, nil)
+		return fail("diff", "c14.sync-error", "inside the window: "+syncErr, nil, nil)
+	}
+	if probeMoved != "" {
+		return fail("judge", "c14.cursor-moved-by-probe", probeMoved, nil, nil)
 	}
 	if outs == nil {
 		outs = []*lib.OutJ{}
@@ -409,6 +511,10 @@ func runCase(c *rig.Ctx, cs Case, record bool, inf *info) bool {
 		if is[i] != ms[i] {
 			return fail("diff", "c14.results", fmt.Sprintf("result %d (%s): code %s, model %s", i, map[bool]string{true: "sorted multiset", false: "sequence"}[cs.Kind == "conc"], is[i], ms[i]), outsSummary(outs), nil)
 		}
+	}
+	for _, e := range m.LbPick {
+		e.Scope = "pickone:"
+		m.Lb = append(m.Lb, e)
 	}
 	if a, b := lib.CanonLb(m.Lb), lib.CanonLb(lbAfter); a != b {
 		return fail("diff", "c14.cursors", fmt.Sprintf("final cursors: model [%s], code [%s]", a, b), nil, nil)
@@ -533,12 +639,25 @@ func genCase(c *rig.Ctx, conc bool) Case {
 	case 2:
 		gap = 1 + r.Intn(20)
 	}
+	// what token authentication adds: ClusterInfo.PickOne() (policy index 3) before a request's pick, for all / some / no requests
+	authEvery := []int{0, 0, 1, 2, 5}[r.Intn(5)]
+	// health probes that answer what they answered before, between the picks
+	probeGap := 0
+	if r.Intn(5) < 2 {
+		probeGap = 1 + r.Intn(4)
+	}
 	since := 0
 	for i := 0; i < n; i++ {
+		if authEvery > 0 && i%authEvery == 0 {
+			cs.Picks = append(cs.Picks, 3)
+		}
 		if mixed {
-			cs.Picks = append(cs.Picks, r.Intn(3))
+			cs.Picks = append(cs.Picks, r.Intn(4))
 		} else {
 			cs.Picks = append(cs.Picks, one)
+		}
+		if probeGap > 0 && i%probeGap == 0 {
+			cs.Picks = append(cs.Picks, -1000-r.Intn(u))
 		}
 		since++
 		if gap > 0 && since >= gap {
@@ -558,6 +677,9 @@ func genCase(c *rig.Ctx, conc bool) Case {
 func shrink(c *rig.Ctx, cs Case, kind, class string) Case {
 	if cs.Kind == "churn" {
 		return shrinkChurn(c, cs, kind, class)
+	}
+	if cs.Kind == "e2e" {
+		return cs
 	}
 	fails := func(x Case) bool {
 		var inf info
@@ -633,6 +755,8 @@ func main() {
 		n := c.Budget(300, 1500)
 		picks := 0
 		diffs, judged := 0, false
+		known := lib.KnownClasses("C14")
+		knownSeen := map[string]bool{}
 		var deadline time.Time
 		for i := 0; i < n && !judged; i++ {
 			if !deadline.IsZero() && time.Now().After(deadline) {
@@ -642,6 +766,9 @@ func main() {
 			if i%6 == 4 {
 				cs = genChurn(c)
 			}
+			if i%6 == 1 {
+				cs = genE2E(c)
+			}
 			var inf info
 			ok := runCase(c, cs, false, &inf)
 			picks += inf.n
@@ -649,9 +776,20 @@ func main() {
 				if cs.Kind == "churn" {
 					return readableChurn(cs)
 				}
+				if cs.Kind == "e2e" {
+					return readableE2E(cs)
+				}
 				return readable(cs)
 			})
 			c.Trace()
+			if !ok && inf.kind == "judge" && known[inf.class] {
+				// a registered finding: reported once (./check prints KNOWN-FINDING), the exploration goes on
+				if !knownSeen[inf.class] {
+					knownSeen[inf.class] = true
+					c.Fail(*inf.failure)
+				}
+				continue
+			}
 			if !ok {
 				// a failure: from now on look (for a bounded time) for an input on which the property itself fails
 				quiesceTimeout = 2 * time.Second
@@ -681,18 +819,31 @@ func resyncBucket(cs Case) string {
 	if cs.Kind == "churn" {
 		return ""
 	}
+	if cs.Kind == "e2e" {
+		if cs.E2E != nil && cs.E2E.Token {
+			return "+token-auth"
+		}
+		return "+no-upstream-auth"
+	}
 	if cs.Kind == "conc" {
 		if cs.Resync {
 			return "+syncs"
 		}
 		return ""
 	}
+	tag := ""
 	for _, p := range cs.Picks {
-		if p < 0 {
-			return "+syncs"
+		if p < 0 && p > -1000 && !strings.Contains(tag, "+syncs") {
+			tag += "+syncs"
+		}
+		if p <= -1000 && !strings.Contains(tag, "+probes") {
+			tag += "+probes"
+		}
+		if p >= 3 && !strings.Contains(tag, "+pickone") {
+			tag += "+pickone"
 		}
 	}
-	return ""
+	return tag
 }
 
 func ordersBucket(d int) string {
